@@ -8,7 +8,8 @@
 //   {"a":"Open","dom":"ok|wrong"}
 //   {"a":"Auth","ver":"sasl|sasl2","mech":"PLAIN|DIGEST-MD5|ANONYMOUS|X-UNKNOWN","cred":C,"b2":bool}
 //   {"a":"Response","ver":..,"cred":C}       C = malformed|empty (payload shapes) or who x secret:
-//        right|wrongPw|ownEmpty (own account) otherUser|victimEmpty|victimOwnSecret (the victim) unknownPw|unknownEmpty
+//        right|wrongPw|ownEmpty|ownOtherNonce|ownNoNonce (own account) otherUser|victimEmpty|victimOwnSecret|victimReplay
+//        (the victim) unknownPw|unknownEmpty
 //        (no such account) embedEmpty|embedBareEmpty|embedSlashEmpty (no such account, the name embeds
 //        the victim's address) embedKnown (an account of the attacker's named "victim@example.org/x")
 //   {"a":"Abort","ver":..}
@@ -70,6 +71,7 @@ public:
     QList<Pending> pending;
     bool autoFinish = false;         // honest victim login: default behaviour (finishLater)
     QString scriptUser, scriptPw;    // what the attacker's script used to compute its digest response
+    bool scriptForThisChallenge = true;   // ... and whether it computed it for the challenge issued on this stream
     QJsonArray log;                  // records of the current step
 
     // The checker is written the way the library documents ("the simplest way to write a password
@@ -115,7 +117,10 @@ public:
             return lib;
         }
         // the digest proves the password only if the script computed its response from the right one
-        bool ok = creds.contains(req.username()) && req.username() == scriptUser && creds.value(req.username()) == scriptPw;
+        // ... and for THIS challenge: a response recorded elsewhere or made for a nonce of the client's choosing
+        // presents nothing on this stream
+        bool ok = creds.contains(req.username()) && req.username() == scriptUser && creds.value(req.username()) == scriptPw
+            && scriptForThisChallenge;
         auto *reply = takeOver(lib);
         ask(reply, "digest", req.username(), ok);
         return reply;
@@ -340,6 +345,14 @@ struct Script {
             // the victim's NAME; a DIGEST-MD5 response is computed from the attacker's own secret hash
             // MD5(attacker:realm:attacker-password) (see digestPayload); PLAIN: same payload as otherUser
             { "victimOwnSecret", { kVic, kAttPw } },
+            // DIGEST-MD5 responses that are well-formed but NOT for the challenge issued on this stream
+            // (see digestPayload): the victim's, as recorded from an honest exchange elsewhere -- the
+            // harness computes it from the victim's real secret for a nonce of its own; the attacker's
+            // own with the right secret for another nonce; the same without a nonce field.
+            // In a PLAIN payload they degrade to otherUser / wrongPw (see plainPayload).
+            { "victimReplay", { kVic, kVicPw } },
+            { "ownOtherNonce", { kAtt, kAttPw } },
+            { "ownNoNonce", { kAtt, kAttPw } },
             { "unknownPw", { kNobody, kAttPw } },                // no such account, some password
             { "unknownEmpty", { kNobody, QString() } },          // no such account, empty password
             // no such account; the name embeds the victim's address (the name becomes the localpart of d->jid)
@@ -362,7 +375,7 @@ struct Script {
             return b64("garbage");
         }
         QString u, p;
-        creds(c, u, p);
+        creds(c == "victimReplay" ? QStringLiteral("otherUser") : (c == "ownOtherNonce" || c == "ownNoNonce") ? QStringLiteral("wrongPw") : c, u, p);
         return b64(QByteArray(1, '\0') + u.toUtf8() + QByteArray(1, '\0') + p.toUtf8());
     }
     // RFC 2831 response to the server's challenge, computed by hand
@@ -378,11 +391,19 @@ struct Script {
         creds(c, u, p);
         w.checker.scriptUser = u;
         w.checker.scriptPw = p;
+        // is the response computed for the challenge the server issued on this stream
+        const bool otherNonce = c == "victimReplay" || c == "ownOtherNonce", noNonce = c == "ownNoNonce";
+        w.checker.scriptForThisChallenge = !otherNonce && !noNonce;
         QByteArray nonce;
         static const QRegularExpression re(QStringLiteral("nonce=\"([^\"]*)\""));
         auto m = re.match(QString::fromLatin1(challenge));
         if (m.hasMatch()) {
             nonce = m.captured(1).toLatin1();
+        }
+        if (otherNonce) {
+            nonce = "bm9uY2Ugb2YgYW5vdGhlciBzdHJlYW0=";   // the nonce of another stream's challenge
+        } else if (noNonce) {
+            nonce.clear();
         }
         const QByteArray cnonce = "c0ffee", nc = "00000001", uri = "xmpp/" + kDomain.toUtf8(), realm = kDomain.toUtf8();
         auto md5 = [](const QByteArray &d) { return QCryptographicHash::hash(d, QCryptographicHash::Md5); };
@@ -391,7 +412,7 @@ struct Script {
         QByteArray a1 = md5(hu.toUtf8() + ":" + realm + ":" + p.toUtf8()) + ":" + nonce + ":" + cnonce;
         QByteArray a2 = "AUTHENTICATE:" + uri;
         QByteArray resp = md5(md5(a1).toHex() + ":" + nonce + ":" + nc + ":" + cnonce + ":auth:" + md5(a2).toHex()).toHex();
-        QByteArray msg = "username=\"" + u.toUtf8() + "\",realm=\"" + realm + "\",nonce=\"" + nonce + "\",cnonce=\"" + cnonce +
+        QByteArray msg = "username=\"" + u.toUtf8() + "\",realm=\"" + realm + (noNonce ? QByteArray() : "\",nonce=\"" + nonce) + "\",cnonce=\"" + cnonce +
             "\",nc=" + nc + ",qop=auth,digest-uri=\"" + uri + "\",response=" + resp + ",charset=utf-8";
         return b64(msg);
     }
